@@ -387,7 +387,9 @@ impl Pt {
             out.fail(format!("host/{}/no-reply", what), format!("{} replies", rep.nreplies));
             return false;
         }
-        if rep.error == -libc::ESTALE && self.stale_ok.get() {
+        // (ENOMEM: ext4's iget answers that instead of ESTALE while the stale handle's inode number is
+        // being re-created by another process on the same file system)
+        if (rep.error == -libc::ESTALE || rep.error == -libc::ENOMEM) && self.stale_ok.get() {
             return false;
         }
         match (rep.error, host) {
@@ -424,9 +426,10 @@ impl Pt {
         }
         if let Some(n) = self.nodes.get(&nodeid) {
             if n.key != key {
+                let cfgtag = if self.cfg.file_handles && self.cfg.use_host_ino { ":file_handles+use_host_ino" } else { "" };
                 out.fail(
-                    format!("ref/{}/number-denotes-two-files", what),
-                    format!("inode number {} is still valid for host file {:?} (count {}) and was now returned for a different host file {:?}", nodeid, n.key, n.count, key),
+                    format!("ref/number-denotes-two-files{}", cfgtag),
+                    format!("{}: inode number {} is still valid for host file {:?} (count {}) and was now returned for a different host file {:?}", what, nodeid, n.key, n.count, key),
                 );
                 return;
             }
@@ -538,6 +541,10 @@ impl Pt {
             let rep = call(&self.srv, &mkreq("GETATTR", n, 0, 0, &[], &[], &[]));
             match self.nodes.get(&n) {
                 Some(node) => {
+                    if (rep.error == -libc::ESTALE || rep.error == -libc::ENOMEM) && self.any_unlinked(&[n]) {
+                        // tracked by file handle and unlinked on the host: cannot be reopened any more
+                        continue;
+                    }
                     if rep.error != 0 {
                         out.fail("ref/valid-number-rejected", format!("inode number {} has {} references but GETATTR answered {}", n, node.count, rep.error));
                         return;
@@ -976,7 +983,7 @@ impl Pt {
         } else {
             self.send(out, &mkreq(op, nodeid, 0, 0, &[("fh", fh)], &[], &[]))
         };
-        if rep.error != 0 && !(rep.error == -libc::ESTALE && self.stale_ok.get()) {
+        if rep.error != 0 && !((rep.error == -libc::ESTALE || rep.error == -libc::ENOMEM) && self.stale_ok.get()) {
             out.fail(format!("host/{}/failed", op.to_lowercase()), format!("{} on a live handle answered {}", op, rep.error));
         }
     }
